@@ -149,8 +149,7 @@ theorem shortLoop_val (k rest : Str) (o : Opt) (a : PAcc) (hk : IsRune k) (ht : 
     simp only [List.cons_append] at h1 h3 ⊢
     rw [shortLoop]
     simp only [h1, ht, hb, h3]
-    have : ¬ ((c :: (t ++ rest)).length < (c :: t).length) := by simp
-    simp only [Bool.false_eq_true, if_false, this]
+    simp only [Bool.false_eq_true, if_false]
     have hd : List.drop (c :: t).length (c :: (t ++ rest)) = rest := by
       rw [← List.cons_append]; exact List.drop_left
     rw [hd]
